@@ -50,7 +50,7 @@ func init() {
 	core.Register(&core.Monitor{
 		ID:            "C21",
 		Race:          true,
-		Rule:          "server histories from the PRNG: length 50..2000 messages (75% 50..200, 20% 200..600, 5% 600..2000, thorough 5% 2000..5000; node-to-client histories capped at 160 / thorough 400 because every block is decoded and validated), each message RollForward (corpus block: NtN header / NtC block), RollBackward to an earlier point of the served chain (12%), optionally preceded by AwaitReply (10%), every message with its own tip; x mode {NtN, NtC} x PipelineLimit {0,1,2,10,50,100} x callback kind {decoded, raw; every third node-to-client history with a pipeline.BlockPipeline (2..4 decode workers, perturbed through pipeline.VerifSetPoint) whose ApplyFunc is the roll-forward recorder} x callback delays {none, light, heavy} x perturbation level {0,1,2} x server reply policy {eager, burst, random, lazy} with random segmentation x stop mode {after the whole history (server quiescent), at callback k begin, at callback k end}. A case is non-trivial when the client delivered at least 20 callbacks that were compared with the server log and Stop() was judged; distinct by (mode, limit, history hash, stop mode, stop index)",
+		Rule:          "server histories from the PRNG: length 50..2000 messages (75% 50..200, 20% 200..600, 5% 600..2000, thorough 5% 2000..5000; node-to-client histories capped at 160 / thorough 400 because every block is decoded and validated), each message RollForward (corpus block: NtN header / NtC block), RollBackward to an earlier point of the served chain (12%), optionally preceded by AwaitReply (10%), every message with its own tip; x mode {NtN, NtC} x PipelineLimit {0,1,2,10,50,100} x callback kind {decoded, raw; every third node-to-client history with a pipeline.BlockPipeline (2..4 decode workers, perturbed through pipeline.VerifSetPoint) whose ApplyFunc is the roll-forward recorder} x callback delays {none, light, heavy} x perturbation level {0,1,2} x server reply policy {eager, burst, random, lazy} with random segmentation x calls on the same client before Sync {none, GetAvailableBlockRange, GetCurrentTip then GetAvailableBlockRange, GetCurrentTip, GetAvailableBlockRange then GetCurrentTip} (the server answers the first request after them slowly) x stop mode {after the whole history (server quiescent), at callback k begin, at callback k end}. A case is non-trivial when the client delivered at least 20 callbacks that were compared with the server log and Stop() was judged; distinct by (mode, limit, history hash, stop mode, stop index)",
 		MinNontrivial: 60,
 		RaceAnchors:   []string{"chainsync.(*Client).syncLoop", "chainsync.(*Client).Sync", "chainsync.(*Client).handleRoll"},
 		Assumptions: []string{
@@ -92,7 +92,9 @@ type caseSpec struct {
 	StopMode string
 	StopAt   int
 	Script   []reply
-	Messages int // incl. AwaitReply
+	Prelude  []string // calls made on the same client before Sync: "tip" (GetCurrentTip), "range" (GetAvailableBlockRange)
+	Pre      []reply  // the server's replies to the RequestNext messages of the prelude (they produce no callbacks)
+	Messages int      // incl. AwaitReply
 	Seed     uint64
 	Hash     uint64
 }
@@ -184,6 +186,31 @@ func genCase(c *core.Ctx, i int, r *core.Rand, blocks []*rig.Block, ebb int) *ca
 	}
 	cs.Messages = msgs
 	cs.Hash = h.Sum64()
+	// history families before Sync, cycling over blocks of 12 cases (= every mode x limit)
+	switch (i / 12) % 4 {
+	case 1:
+		cs.Prelude = []string{"range"}
+	case 2:
+		cs.Prelude = []string{"tip", "range"}
+	case 3:
+		if (i/48)%2 == 0 {
+			cs.Prelude = []string{"tip"}
+		} else {
+			cs.Prelude = []string{"range", "tip"}
+		}
+	}
+	for _, p := range cs.Prelude {
+		if p == "range" {
+			// GetAvailableBlockRange: RequestNext -> RollBackward(intersect), RequestNext -> RollForward(first block)
+			b := r.Intn(len(blocks))
+			for !cs.NtN && b == ebb {
+				b = r.Intn(len(blocks))
+			}
+			cs.Pre = append(cs.Pre,
+				reply{Back: true, Point: rig.Point{}, Tip: rig.Tip{Point: rig.Point{Slot: 900001, Hash: r.Bytes(32)}, BlockNo: 800001}},
+				reply{Blk: b, Tip: rig.Tip{Point: rig.Point{Slot: 900002, Hash: r.Bytes(32)}, BlockNo: 800002}})
+		}
+	}
 	switch p := r.Intn(10); {
 	case p < 5:
 		cs.StopMode = "end"
@@ -421,8 +448,10 @@ func serve(st *runState, l *rig.Link, wrapped [][]byte, sl *serverLog, quit <-ch
 	r := core.NewRand(cs.Seed ^ 0x5e7e7)
 	evs := make(chan srvEvent, cs.Messages+400)
 	go reader(l, proto, evs)
+	script := append(append([]reply{}, cs.Pre...), cs.Script...)
 	next := 0 // next script entry
 	out := 0
+	heldAfterPrelude := len(cs.Pre) == 0
 	handle := func(ev srvEvent) bool {
 		sl.mu.Lock()
 		defer sl.mu.Unlock()
@@ -443,7 +472,7 @@ func serve(st *runState, l *rig.Link, wrapped [][]byte, sl *serverLog, quit <-ch
 			sl.depth[depthBucket(out)]++
 		case 4:
 			sl.intersects++
-			if sl.recvReq > 0 {
+			if sl.recvReq > 0 && len(cs.Prelude) == 0 {
 				sl.unknown = append(sl.unknown, "FindIntersect after RequestNext")
 			}
 		case 7:
@@ -454,10 +483,10 @@ func serve(st *runState, l *rig.Link, wrapped [][]byte, sl *serverLog, quit <-ch
 		}
 		return true
 	}
-	intersected := false
+	intsAnswered := 0
 	for {
 		// take everything that has arrived
-		blocking := !intersected || out == 0 || next >= len(cs.Script)
+		blocking := intsAnswered == 0 || out == 0 || next >= len(script)
 		if blocking {
 			select {
 			case ev := <-evs:
@@ -489,17 +518,24 @@ func serve(st *runState, l *rig.Link, wrapped [][]byte, sl *serverLog, quit <-ch
 		ints, dn := sl.intersects, sl.dones
 		out = sl.recvReq - sl.sentRepl
 		sl.mu.Unlock()
-		if !intersected {
-			if ints == 0 {
-				continue
-			}
-			intersected = true
+		if ints > intsAnswered {
+			intsAnswered++
 			if err := l.Peer.Send(proto, rig.MsgIntersectFound(rig.Point{}, rig.Tip{Point: rig.Point{Slot: 1, Hash: bytes.Repeat([]byte{0xee}, 32)}, BlockNo: 1}), 0); err != nil {
 				return
 			}
 			continue
 		}
-		if dn > 0 || out == 0 || next >= len(cs.Script) {
+		if intsAnswered == 0 || dn > 0 || out == 0 || next >= len(script) {
+			continue
+		}
+		if !heldAfterPrelude && next == len(cs.Pre) {
+			// first request of the Sync that follows the prelude: answer slowly, so that everything the
+			// client sends on its own account is on the wire before the first reply
+			heldAfterPrelude = true
+			for i := 0; i < 8; i++ {
+				runtime.Gosched()
+			}
+			time.Sleep(3 * time.Millisecond)
 			continue
 		}
 		// how many requests to answer in this round
@@ -522,13 +558,16 @@ func serve(st *runState, l *rig.Link, wrapped [][]byte, sl *serverLog, quit <-ch
 			}
 			k = 1 + r.Intn(out)
 		}
-		if k > len(cs.Script)-next {
-			k = len(cs.Script) - next
+		if next < len(cs.Pre) {
+			k = 1 // the prelude's requests come one at a time
+		}
+		if k > len(script)-next {
+			k = len(script) - next
 		}
 		var payload []byte
 		nm := 0
 		for j := 0; j < k; j++ {
-			rp := cs.Script[next+j]
+			rp := script[next+j]
 			if rp.Await {
 				payload = append(payload, rig.MsgAwaitReply()...)
 				nm++
@@ -607,7 +646,7 @@ func runCase(c *core.Ctx, cs *caseSpec, blocks []*rig.Block, wrappedNtN, wrapped
 		bound = 1
 	}
 	wit := func() map[string]any {
-		return map[string]any{"case": cs.Idx, "mode": cs.mode(), "pipeline_limit": cs.Limit, "raw_callback": cs.Raw, "block_pipeline": cs.Pipe, "messages": cs.Messages,
+		return map[string]any{"case": cs.Idx, "mode": cs.mode(), "pipeline_limit": cs.Limit, "raw_callback": cs.Raw, "block_pipeline": cs.Pipe, "calls_before_sync": cs.Prelude, "messages": cs.Messages,
 			"stop_mode": cs.StopMode, "stop_at": cs.StopAt, "server_policy": cs.Policy, "perturbation": cs.Perturb, "callback_delay": cs.CbDelay,
 			"history_head": historyHead(cs, blocks, 12)}
 	}
@@ -722,7 +761,22 @@ func runCase(c *core.Ctx, cs *caseSpec, blocks []*rig.Block, wrappedNtN, wrapped
 	go serve(st, l, wrapped, sl, quit, srvDone)
 
 	syncRes := make(chan error, 1)
-	go func() { syncRes <- client.Sync([]pcommon.Point{pcommon.NewPointOrigin()}) }()
+	go func() {
+		for _, p := range cs.Prelude {
+			var err error
+			switch p {
+			case "tip":
+				_, err = client.GetCurrentTip()
+			case "range":
+				_, _, err = client.GetAvailableBlockRange([]pcommon.Point{pcommon.NewPointOrigin()})
+			}
+			if err != nil {
+				syncRes <- fmt.Errorf("prelude %s: %w", p, err)
+				return
+			}
+		}
+		syncRes <- client.Sync([]pcommon.Point{pcommon.NewPointOrigin()})
+	}()
 
 	type stopRes struct {
 		err  error
@@ -864,6 +918,7 @@ loop:
 	c.Count("perturbation_hits", int(pert.Hits.Load()))
 	c.Count("trace_events", int(st.events.Load()))
 	c.Count("mode_"+cs.mode(), 1)
+	c.Count("history_"+strings.Join(append([]string{}, append(cs.Prelude, "sync")...), "_then_"), 1)
 	if cs.Pipe {
 		c.Count("with_block_pipeline", 1)
 		c.Count("callbacks_through_pipeline_apply", cbs-nb)
@@ -903,8 +958,12 @@ loop:
 		c.Violation(key, fmt.Sprintf("%s PipelineLimit=%d: callback #%v is %v, the server's message #%v was %v (%v)", cs.mode(), cs.Limit,
 			w["index"], w["callback"], w["index"], w["server_sent"], st.mismatch), w)
 	}
-	if cbs > sl.sentRepl {
-		c.Violation("C21:callback:more-than-sent", fmt.Sprintf("%s: %d callbacks for %d messages written by the server", cs.mode(), cbs, sl.sentRepl), w)
+	sentMain := sl.sentRepl - len(cs.Pre)
+	if sentMain < 0 {
+		sentMain = 0
+	}
+	if cbs > sentMain {
+		c.Violation("C21:callback:more-than-sent", fmt.Sprintf("%s: %d callbacks for %d messages written by the server", cs.mode(), cbs, sentMain), w)
 	}
 	// outstanding requests
 	for _, m := range []struct {
@@ -926,7 +985,7 @@ loop:
 		w["after_done"] = sl.afterDone
 		c.Violation("C21:wire:message-after-done", fmt.Sprintf("%s: the client sent %d message(s) after Done (%d Done in total)", cs.mode(), len(sl.afterDone), sl.dones), w)
 	}
-	if len(sl.unknown) > 0 || sl.intersects > 1 {
+	if len(sl.unknown) > 0 || sl.intersects > 1+len(cs.Prelude) {
 		w["unexpected"] = sl.unknown
 		c.Violation("C21:wire:unexpected-message", fmt.Sprintf("%s: the syncing client sent something else than one FindIntersect, RequestNext* and Done: %v", cs.mode(), sl.unknown), w)
 	}
@@ -936,7 +995,8 @@ loop:
 	// progress / stop
 	switch {
 	case verdictStall != "" && strings.HasPrefix(verdictStall, "sync-error"):
-		if len(errs) > 0 && classifyErr(errs[0]) == "state-timeout" {
+		if (len(errs) > 0 && classifyErr(errs[0]) == "state-timeout") || strings.Contains(verdictStall, "prelude ") {
+			// a failing GetCurrentTip / GetAvailableBlockRange before Sync is outside the statement
 			c.Inconclusive(fmt.Sprintf("case %d: %s", cs.Idx, verdictStall))
 		} else {
 			c.Violation("C21:sync:error", fmt.Sprintf("%s: Sync() failed against a server that answered IntersectFound: %s", cs.mode(), verdictStall), w)
@@ -966,7 +1026,7 @@ loop:
 		judged = false
 	}
 	if judged && st.mismatch == "" && cbs >= 20 {
-		c.Distinct(cs.mode(), cs.Pipe, cs.Limit, cs.Hash, cs.StopMode, cs.StopAt)
+		c.Distinct(cs.mode(), cs.Pipe, cs.Limit, cs.Hash, cs.StopMode, cs.StopAt, fmt.Sprint(cs.Prelude))
 	}
 }
 
@@ -1027,13 +1087,18 @@ func judgeStall(c *core.Ctx, cs *caseSpec, st *runState, sl *serverLog, what str
 		c.Inconclusive(fmt.Sprintf("case %d (%s limit=%d): %s, no goroutine of the connection in the dump", cs.Idx, cs.mode(), cs.Limit, what))
 		return
 	}
+	sentMain := sl.sentRepl - len(cs.Pre)
+	if sentMain < 0 || (len(cs.Pre) > 0 && sl.sentRepl <= len(cs.Pre)) {
+		c.Inconclusive(fmt.Sprintf("case %d (%s limit=%d): %s during the calls before Sync %v", cs.Idx, cs.mode(), cs.Limit, what, cs.Prelude))
+		return
+	}
 	switch {
-	case cbs == sl.sentRepl && out == 0 && sl.sentRepl < len(cs.Script) && syncLoopParked:
+	case cbs == sentMain && out == 0 && sentMain < len(cs.Script) && syncLoopParked:
 		c.Violation("C21:progress:no-further-request", fmt.Sprintf("%s limit=%d: all %d replies were delivered, no request is outstanding, the history has %d more messages, and the client's sync loop is parked: it stopped requesting",
-			cs.mode(), cs.Limit, cbs, len(cs.Script)-sl.sentRepl), w)
-	case cbs < sl.sentRepl && syncLoopParked:
+			cs.mode(), cs.Limit, cbs, len(cs.Script)-sentMain), w)
+	case cbs < sentMain && syncLoopParked:
 		c.Violation("C21:progress:message-not-delivered", fmt.Sprintf("%s limit=%d: the server wrote %d replies, only %d callbacks happened, all counters frozen for %v with the client parked",
-			cs.mode(), cs.Limit, sl.sentRepl, cbs, quiescence), w)
+			cs.mode(), cs.Limit, sentMain, cbs, quiescence), w)
 	default:
 		c.Inconclusive(fmt.Sprintf("case %d (%s limit=%d): %s (callbacks %d, replies %d, outstanding %d)", cs.Idx, cs.mode(), cs.Limit, what, cbs, sl.sentRepl, out))
 	}
